@@ -265,6 +265,9 @@ func init() {
 			checkComparator(c, "R1.1")
 			checkOpsConcatenation(c)
 			checkWitnessAll(c, "R5.3")
+			// git-bug must not itself produce a history it refuses: merge joins related histories only (shared with C02)
+			ruleDocsMerge(c)
+			checkMergeFns(c, newEffects(c.W))
 		})
 	register("C01",
 		"Convergence follows from three code-shape facts decided here plus the refusals of C03: (R1.1) the order of operation packs is a pure function of stored data — the comparator of dag.read is the lexicographic order on (EditTime, pack id), decided by abstract interpretation over all key orderings, and reads nothing else; (R1.2) no map iteration order reaches the operation list unsorted; (R1.3) a merge commit carries no operations and an edit time freshly incremented after both branches were read (so witnessed), with both heads as parents; (R3.5) reading does not depend on the traversal order of the commit graph; (R2.1–R2.4, R2.6, R11.1) the merge classifies ancestry correctly, hands back the merged state, and the cache takes every merged entity over (loaded instance, excerpt, index, cache file), so what a long-running replica shows and builds its next edit on is the merged history.",
@@ -280,6 +283,9 @@ func init() {
 			ruleDocsMerge(c)
 			checkMergeFns(c, newEffects(c.W))
 			checkCacheMergeFold(c, "R2.6")
+			checkNewOnlyWhenRefAbsent(c)
+			// what was fetched gets merged: a pull never reports success while the fetched data stays unmerged (shared with C06)
+			checkActionsAtomic(c, newEffects(c.W))
 			c.Doc("R11.1", "per SubCache function: excerpts store ⇒ index write; delete ⇒ Index.Remove; reset ⇒ Index.Clear; and SubCache.write() on every path to a non-error exit")
 			checkExcerptIndexPairing(c)
 		})
